@@ -11,7 +11,6 @@ Section Hss.
   Variable n : nat.
   Variable H : bytes -> bytes.
 
-  Notation param := (otsp * lmsp)%type.
 
   Definition tree_pk (ps : param) (seed I : bytes) : bytes :=
     lms_pk_bytes (fst ps) (snd ps) I (lms_root K n H I seed (fst ps) (snd ps)).
